@@ -28,6 +28,7 @@ from .. import coqterm as T
 from ..conn_common import (Recorder, cache_sasl_entry_points, coq_bytes, has_bye,
                            populate_user, run_exchange, tagged, write_cmd_table)
 from .C05 import Interner, _why
+from .. import c09_dbhist, c09_lookalike
 
 HEADER = ('From Coq Require Import String.\n'
           'From PV Require Import Base.Prelude Conn.CmdEntry Conn.CmdTable Conn.ConnFSM '
@@ -608,7 +609,8 @@ def truth_valid(E: Env, creds) -> bool:
         a, s, z = authc.decode('utf-8'), secret.decode('utf-8'), authz.decode('utf-8')
     except UnicodeDecodeError:
         return False
-    if a not in USERS or USERS[a][0] is None or USERS[a][0] != s:
+    # secrets are equal iff their SASLprep forms are (RFC 4013; identity on printable ASCII)
+    if a not in USERS or USERS[a][0] is None or not c09_lookalike.secret_eq(USERS[a][0], s):
         return False
     if z not in USERS:
         return False
@@ -887,7 +889,7 @@ def monitor_sieve(ctx, E: Env, res: dict, replay: dict) -> None:
 
 
 # ---------------------------------------------------------------------- run
-def build_groups(items, build, size):
+def build_groups(items, build, size, header=None):
     """Case terms in groups, each with its own table of interned sub-terms
     (a group = one self-contained Coq file; groups are evaluated in parallel)."""
     global INTERN
@@ -895,7 +897,7 @@ def build_groups(items, build, size):
     for i in range(0, len(items), size):
         INTERN = Interner()
         cases = [build(x) for x in items[i:i + size]]
-        groups.append((HEADER + INTERN.header(), cases))
+        groups.append(((header or HEADER) + INTERN.header(), cases))
     return groups
 
 
@@ -1011,7 +1013,7 @@ def run(ctx) -> None:
     t0 = time.time()
     table, changed = write_cmd_table()
     ctx.extra['cmd_table'] = {'entries': len(table), 'rewritten': changed}
-    ctx.check_proofs(['Conn/AuthCheck'])
+    ctx.check_proofs(['Conn/AuthCheck', 'Conn/AuthDbCheck'])
     ctx.extra['t_proofs_s'] = round(time.time() - t0, 1)
     rng = ctx.rng
     n_imap = ctx.scale(900, 10000)
@@ -1022,6 +1024,7 @@ def run(ctx) -> None:
         for spec in ENV_SPECS:
             envs[spec[0]] = await Env(*spec).start()
         imap_runs, sieve_runs = [], []
+        look_imap, look_sieve = [], []
         try:
             with Recorder() as rec:
                 plan = list(fixed_sequences())
@@ -1061,18 +1064,25 @@ def run(ctx) -> None:
                                 if sa.mech.upper() in (b'PLAIN', b'LOGIN') else None
                     res = await asyncio.wait_for(run_sieve_sequence(rec, E, attempts), 120)
                     sieve_runs.append((E, attempts, res))
+                # round 5: look-alike credentials (decoding of credential octets)
+                for envname, attempts in c09_lookalike.imap_plan(rng, ctx.scale(40, 600)):
+                    res = await asyncio.wait_for(run_imap_sequence(rec, envs[envname], attempts), 120)
+                    look_imap.append((envs[envname], attempts, res))
+                for envname, attempts in c09_lookalike.sieve_plan(rng, ctx.scale(16, 250)):
+                    res = await asyncio.wait_for(run_sieve_sequence(rec, envs[envname], attempts), 120)
+                    look_sieve.append((envs[envname], attempts, res))
         finally:
             for E in envs.values():
                 E.close()
-        return imap_runs, sieve_runs
+        return imap_runs, sieve_runs, look_imap, look_sieve
     t1 = time.time()
-    imap_runs, sieve_runs = asyncio.run(main())
+    imap_runs, sieve_runs, look_imap, look_sieve = asyncio.run(main())
     ctx.extra['t_impl_s'] = round(time.time() - t1, 1)
 
     # ---- IMAP
     cases = []
     hist = {}
-    for E, attempts, res in imap_runs:
+    for E, attempts, res in imap_runs + look_imap:
         replay = {'listener': 'imap', 'env': E.name,
                   'attempts': [{'line': a.line.decode('latin-1'),
                                 'lines': [x.decode('latin-1') for x in a.lines]} for a in attempts]}
@@ -1090,7 +1100,7 @@ def run(ctx) -> None:
     # ---- ManageSieve
     scases = []
     shist = {}
-    for E, attempts, res in sieve_runs:
+    for E, attempts, res in sieve_runs + look_sieve:
         replay = {'listener': 'sieve', 'env': E.name,
                   'attempts': [{'line': a.line.decode('latin-1'),
                                 'lines': [x.decode('latin-1') for x in a.lines]} for a in attempts]}
@@ -1136,12 +1146,57 @@ def run(ctx) -> None:
                       s['cond'], s['owner'], s['mechs'], s['offer_tls'], s['closed'])
                      for s in res['steps']],
             'model_first_difference': where[-600:]})
+    # ---- round 5: look-alike credentials under the strict-decoding model, the UTF-8
+    # validator, the identity database as state (three Coq jobs side by side)
+    from concurrent.futures import ThreadPoolExecutor
+    ucases, uterms = c09_lookalike.utf8_terms(ctx, ctx.scale(1200, 20000))
+    hruns = c09_dbhist.run(ctx, ctx.scale(14, 150))
+    lg = build_groups(look_imap, lambda r: imap_case_term(r[0], r[2]), GS, c09_lookalike.HEADER)
+    lsg = build_groups(look_sieve, lambda r: sieve_case_term(r[0], r[2]), GS, c09_lookalike.HEADER)
+    with ThreadPoolExecutor(max_workers=3) as ex:
+        fu = ex.submit(coqrun.run_cases, ctx.prop, 'utf8_decode', c09_lookalike.HEADER, '(bytes * bool)',
+                       uterms, 'chk_utf8', shard=4000)
+        fh = ex.submit(coqrun.run_cases, ctx.prop, 'db_history', c09_dbhist.HEADER, 'hist_case',
+                       [r['term'] for r in hruns], 'chk_hist', shard=60)
+        lbad = eval_groups(ctx, 'imap_lookalike', 'auth_case', 'chk_auth_strict', lg, GS)
+        lsbad = eval_groups(ctx, 'sieve_lookalike', 'sieve_case', 'chk_sieve_strict', lsg, GS)
+        raw_u, raw_h = fu.result(), fh.result()
+    for nm, raw in (('utf8_decode', raw_u), ('db_history', raw_h)):
+        # what Ctx.run_cases records (done here because the jobs ran in worker threads)
+        ctx.traces_validated += raw['n'] - len(raw['bad'])
+        entry = {'name': nm, 'cases': raw['n'], 'disagreements': len(raw['bad']), 'wall_s': raw['wall_s']}
+        ctx.corr.append(entry)
+        if raw['errors']:
+            entry['errors'] = raw['errors'][:3]
+            ctx.broken.append(f'correspondence {nm}: case file did not evaluate: ' + raw['errors'][0][-800:])
+    for i in raw_u['bad'][:5]:
+        ctx.disagreement('utf8_decode', {'bytes': ucases[i].hex()})
+    c09_dbhist.evaluate(ctx, hruns, raw_h)
+    for i in lbad[:5]:
+        E, attempts, res = look_imap[i]
+        hdr, cases = lg[i // GS]
+        where = coqrun.eval_term(ctx.prop, f'lwhere_{i}', hdr, f'where_abad_strict {cases[i % GS]}')
+        ctx.disagreement('imap_lookalike', {
+            'env': E.name,
+            'impl': [(s['attempt'].label, s['attempt'].line.decode('latin-1')[:60],
+                      [x.decode('latin-1')[:40] for x in s['attempt'].lines], s['cond'], s['owner'],
+                      s['stage']) for s in res['steps'] if s['attempt'].kind != 'probe'],
+            'model_first_difference': where[-400:]})
+    for i in lsbad[:5]:
+        E, attempts, res = look_sieve[i]
+        ctx.disagreement('sieve_lookalike', {
+            'env': E.name,
+            'impl': [(s['attempt'].label, s['attempt'].line.decode('latin-1')[:70],
+                      [x.decode('latin-1')[:40] for x in s['attempt'].lines], s['cond'], s['owner'])
+                     for s in res['steps']]})
     ctx.extra['t_coq_s'] = round(time.time() - t2, 1)
 
 
 def replay(ctx, obj) -> int:
     logging.getLogger('pymap.sieve.manage').disabled = True
     cache_sasl_entry_points()
+    if obj.get('family') == 'db_history':
+        return c09_dbhist.replay(ctx, obj)
     spec = [s for s in ENV_SPECS if s[0] == obj.get('env')]
     if not spec:
         print('unknown env', obj.get('env'))
